@@ -460,6 +460,19 @@ class SSecs:
     def total_seconds(s):
         return s
 
+    # datetime.timedelta's NORMALISED fields (days may be negative, 0 <= seconds < 86400): what `.seconds` / `.days` return
+    @property
+    def days(s):
+        return s.ms // 86_400_000
+
+    @property
+    def seconds(s):
+        return (s.ms % 86_400_000) // 1000
+
+    @property
+    def microseconds(s):
+        return (s.ms % 1000) * 1000
+
 
 class _IntMeta(type):
     def __instancecheck__(cls, o):
